@@ -155,10 +155,16 @@ impl FromStr for HandRangeToken {
             && s[3..4] == s[4..5]
         {
             if let (Ok(top), Ok(bottom)) = (Rank::from_str(&s[0..1]), Rank::from_str(&s[3..4])) {
-                return Ok(HandRangeToken::new(
-                    HandRangeTokenKind::DoubleClosedRankPairRange(RankPair::Pocket(top), bottom),
-                    parse_probability(&s[5..]),
-                ));
+                // a span runs from the stronger pair down to the weaker one ("22-AA" is not a span)
+                if top <= bottom {
+                    return Ok(HandRangeToken::new(
+                        HandRangeTokenKind::DoubleClosedRankPairRange(
+                            RankPair::Pocket(top),
+                            bottom,
+                        ),
+                        parse_probability(&s[5..]),
+                    ));
+                }
             }
         }
 
@@ -207,23 +213,26 @@ impl FromStr for HandRangeToken {
             if let (Ok(high), Ok(kicker_bottom)) =
                 (Rank::from_str(&s[0..1]), Rank::from_str(&s[1..2]))
             {
-                if &s[2..3] == "s" {
+                // "X and better kickers" needs the high card first ("KAs+", "2As+" are not ranges)
+                if high < kicker_bottom {
+                    if &s[2..3] == "s" {
+                        return Ok(HandRangeToken::new(
+                            HandRangeTokenKind::BottomClosedRankPairRange(RankPair::Suited(
+                                high,
+                                kicker_bottom,
+                            )),
+                            parse_probability(&s[4..]),
+                        ));
+                    }
+
                     return Ok(HandRangeToken::new(
-                        HandRangeTokenKind::BottomClosedRankPairRange(RankPair::Suited(
+                        HandRangeTokenKind::BottomClosedRankPairRange(RankPair::Ofsuit(
                             high,
                             kicker_bottom,
                         )),
                         parse_probability(&s[4..]),
                     ));
                 }
-
-                return Ok(HandRangeToken::new(
-                    HandRangeTokenKind::BottomClosedRankPairRange(RankPair::Ofsuit(
-                        high,
-                        kicker_bottom,
-                    )),
-                    parse_probability(&s[4..]),
-                ));
             }
         }
 
